@@ -131,6 +131,10 @@ class FreshnessDateDataParser:
             date = now + td
         else:
             date = now - td
+        if hasattr(now.tzinfo, "localize"):
+            # a pytz zone attached to `now` keeps the offset of `now`: attach the
+            # zone again so that the result gets the offset in force on its own date
+            date = now.tzinfo.localize(date.replace(tzinfo=None))
         return date, period
 
     def get_kwargs(self, date_string):
